@@ -195,13 +195,27 @@ Proof.
   cbn [fst snd]. rewrite Mx, My. split; ring.
 Qed.
 
+Lemma poly_extent_shift d vs : vs <> [] -> poly_extent (map (shift d) vs) == poly_extent vs.
+Proof.
+  intros Hne. unfold poly_extent.
+  assert (N1 : map fst vs <> []) by (destruct vs; cbn; congruence).
+  assert (N2 : map snd vs <> []) by (destruct vs; cbn; congruence).
+  rewrite (qmin_list_shift 0 _ _ _ N1 (F2_map_shift_fst d vs)), (qmax_list_shift 0 _ _ _ N1 (F2_map_shift_fst d vs)),
+          (qmin_list_shift 0 _ _ _ N2 (F2_map_shift_snd d vs)), (qmax_list_shift 0 _ _ _ N2 (F2_map_shift_snd d vs)).
+  apply qmax_comp; ring.
+Qed.
+
 Lemma poly_center_shift d vs : vs <> [] ->
   fst (poly_center (map (shift d) vs)) == fst (poly_center vs) + fst d /\
   snd (poly_center (map (shift d) vs)) == snd (poly_center vs) + snd d.
 Proof.
   intros Hne. unfold poly_center. cbv zeta.
   unfold poly_area_signed. rewrite (poly_area2_shift d vs Hne).
-  destruct (Qeqb _ 0); cbn [fst snd]; qr.
+  pose proof (poly_extent_shift d vs Hne) as Ex.
+  assert (Et : area_tol * (poly_extent (map (shift d) vs) * poly_extent (map (shift d) vs)) ==
+               area_tol * (poly_extent vs * poly_extent vs)) by (rewrite Ex; reflexivity).
+  rewrite (Qleb_comp _ _ (Qeq_refl _) _ _ Et).
+  destruct (Qleb _ _); cbn [fst snd]; qr.
   - apply (poly_mean_shift d vs Hne).
   - apply (poly_centroid_shift d vs Hne).
 Qed.
